@@ -528,6 +528,169 @@ func c15DispatchArgs(s *source, rel, callee string) []string {
 	return out
 }
 
+
+// ---- round 5: the users' entry points -------------------------------------------------------------------------------
+
+// c15SubstStmt: c15Subst for the statements of a loop body (if / assignment / block)
+func c15SubstStmt(s *source, st ast.Stmt, m map[string]string) ast.Stmt {
+	switch x := st.(type) {
+	case *ast.IfStmt:
+		n := &ast.IfStmt{Cond: c15Subst(s, x.Cond, m), Body: c15SubstStmt(s, x.Body, m).(*ast.BlockStmt)}
+		if x.Else != nil {
+			n.Else = c15SubstStmt(s, x.Else, m)
+		}
+		return n
+	case *ast.BlockStmt:
+		b := &ast.BlockStmt{}
+		for _, y := range x.List {
+			b.List = append(b.List, c15SubstStmt(s, y, m))
+		}
+		return b
+	case *ast.AssignStmt:
+		n := &ast.AssignStmt{Tok: x.Tok}
+		for _, l := range x.Lhs {
+			n.Lhs = append(n.Lhs, c15Subst(s, l, m))
+		}
+		for _, r := range x.Rhs {
+			n.Rhs = append(n.Rhs, c15Subst(s, r, m))
+		}
+		return n
+	}
+	return st
+}
+
+// c15TotalWeightsStep: the body of the loop of cache.TotalWeights as `func(weights, w int) int` (node.Weight ↦ w)
+func (e *emitter) c15TotalWeightsStep(t *translator, s *source) {
+	fd := s.findFunc("core/stores/cache/util.go", "TotalWeights")
+	var loop *ast.RangeStmt
+	if fd != nil {
+		for _, st := range fd.Body.List {
+			if r, ok := st.(*ast.RangeStmt); ok {
+				loop = r
+			}
+		}
+	}
+	if loop == nil {
+		e.errors = append(e.errors, "loop of TotalWeights not found")
+		e.printf("def totalWeightsStep : Unit := ()\n\n")
+		return
+	}
+	var body []ast.Stmt
+	for _, st := range loop.Body.List {
+		body = append(body, c15SubstStmt(s, st, map[string]string{"node.Weight": "w"}))
+	}
+	syn := c15Synth("totalWeightsStep", []string{"weights", "w"}, body, c15Ident("weights"))
+	def, err := t.translateFunc(syn, "totalWeightsStep", "totalWeightsStep", false, 0, nil)
+	if err != nil {
+		e.errors = append(e.errors, "totalWeightsStep: "+err.Error())
+	}
+	e.printf("/-- translated from the loop body of `TotalWeights` (`%s`), node.Weight ↦ w -/\n%s\n", s.src(loop.Body), def)
+	var frame []string
+	for _, st := range fd.Body.List {
+		if r, ok := st.(*ast.RangeStmt); ok {
+			frame = append(frame, "range "+s.src(r.Key)+","+s.src(r.Value)+":="+s.src(r.X))
+		} else {
+			frame = append(frame, s.src(st))
+		}
+	}
+	e.stringList("totalWeightsFrame", "TotalWeights around its loop: the accumulator starts at 0, every entry is visited, the sum is returned", frame)
+}
+
+// c15Methods: for every method of recv in rel (in source order): name, the names of its string parameters (a variadic
+// one with the suffix "..."), and — when the body is the single statement `return <call>(args…)` — the callee and its
+// arguments as written.
+func (e *emitter) c15Methods(s *source, rel, recv, leanName string) {
+	f := s.file(rel)
+	e.printf("/-- methods of `%s` in %s: (name, string parameters, callee of a delegating body or \"\", its arguments) -/\ndef %s : List (String × List String × List String × String × List String) := [", recv, rel, leanName)
+	first := true
+	if f == nil {
+		e.errors = append(e.errors, "file "+rel+" not found")
+	} else {
+		for _, d := range f.Decls {
+			fd, ok := d.(*ast.FuncDecl)
+			if !ok || fd.Recv == nil || len(fd.Recv.List) != 1 || fd.Body == nil {
+				continue
+			}
+			if strings.TrimPrefix(s.src(fd.Recv.List[0].Type), "*") != recv {
+				continue
+			}
+			var strs []string
+			for _, p := range fd.Type.Params.List {
+				ty := s.src(p.Type)
+				if ty != "string" && ty != "...string" {
+					continue
+				}
+				for _, n := range p.Names {
+					if ty == "...string" {
+						strs = append(strs, n.Name+"...")
+					} else {
+						strs = append(strs, n.Name)
+					}
+				}
+			}
+			callee, args := "", []string{}
+			if len(fd.Body.List) == 1 {
+				if r, ok := fd.Body.List[0].(*ast.ReturnStmt); ok && len(r.Results) == 1 {
+					if c, ok := r.Results[0].(*ast.CallExpr); ok {
+						callee = s.src(c.Fun)
+						for _, a := range c.Args {
+							x := s.src(a)
+							if c.Ellipsis.IsValid() && a == c.Args[len(c.Args)-1] {
+								x += "..."
+							}
+							args = append(args, x)
+						}
+					}
+				}
+			}
+			// all parameter names in order (what a delegating body has to forward)
+			var all []string
+			for _, p := range fd.Type.Params.List {
+				for _, n := range p.Names {
+					if strings.HasPrefix(s.src(p.Type), "...") {
+						all = append(all, n.Name+"...")
+					} else {
+						all = append(all, n.Name)
+					}
+				}
+			}
+			if !first {
+				e.printf(",")
+			}
+			first = false
+			q := func(xs []string) string {
+				var o []string
+				for _, x := range xs {
+					o = append(o, leanString(x))
+				}
+				return "[" + strings.Join(o, ", ") + "]"
+			}
+			e.printf("\n  (%s, %s, %s, %s, %s)", leanString(fd.Name.Name), q(all), q(strs), leanString(callee), q(args))
+		}
+	}
+	e.printf("]\n\n")
+}
+
+// c15BranchBody: the statements inside the `if` of fd whose condition starts with prefix
+func c15BranchBody(s *source, fd *ast.FuncDecl, prefix string) []string {
+	var out []string
+	if fd == nil {
+		return []string{"MISSING"}
+	}
+	ast.Inspect(fd.Body, func(n ast.Node) bool {
+		if x, ok := n.(*ast.IfStmt); ok && out == nil && strings.HasPrefix(s.src(x.Cond), prefix) {
+			for _, st := range x.Body.List {
+				out = append(out, s.src(st))
+			}
+		}
+		return out == nil
+	})
+	if out == nil {
+		return []string{"MISSING"}
+	}
+	return out
+}
+
 func init() {
 	register("C15", func(s *source, e *emitter) {
 		const f = "core/hash/consistenthash.go"
@@ -585,6 +748,13 @@ func init() {
 		e.shapeDef(s, "core/stores/cache/util.go", "TotalWeights", "totalWeightsShape")
 		// decision conditions on the property's path, as Lean functions
 		e.c15Conditions(t, s)
+		// round 5: TotalWeights as arithmetic, the branches of the constructors, every entry point with its parameters
+		e.c15TotalWeightsStep(t, s)
+		e.stringList("cacheFatalBranch", "cache.New: what happens without nodes / weights", c15BranchBody(s, s.findFunc("core/stores/cache/cache.go", "New"), "len(c) == 0"))
+		e.stringList("cacheSingleBranch", "cache.New: the single-node shortcut", c15BranchBody(s, s.findFunc("core/stores/cache/cache.go", "New"), "len(c) == 1"))
+		e.stringList("kvFatalBranch", "kv.NewStore: what happens without nodes / weights", c15BranchBody(s, s.findFunc("core/stores/kv/store.go", "NewStore"), "len(c) == 0"))
+		e.c15Methods(s, "core/stores/kv/store.go", "clusterStore", "kvMethods")
+		e.c15Methods(s, "core/stores/cache/cache.go", "cacheCluster", "cacheMethods")
 		// the three helpers of the `nodes` set
 		for _, fn := range [][2]string{{"ConsistentHash.addNode", "addNode"}, {"ConsistentHash.containsNode", "containsNode"}, {"ConsistentHash.removeNode", "removeNode"}} {
 			fd := s.findFunc(f, fn[0])
